@@ -264,6 +264,12 @@ type Env struct {
 func RunSeed(prop string, base, idx uint64, st *Stats, env *Env) *RunResult {
 	seed := prng.Derive(base, prop, idx)
 	rng := prng.New(seed)
+	if prop == "C09" && idx%64 == 5 {
+		// objective-guided search for large limbs (climb.go)
+		res := &RunResult{Idx: idx, Seed: seed}
+		ClimbRun(rng, st, env, res, base)
+		return res
+	}
 	cfg := Profile(prop, rng, idx)
 	opts := Opts{}
 	if prop == "C05" {
